@@ -166,9 +166,39 @@ def norm_ws(s):
     return " ".join(s.split())
 
 
+def split_sig(sig):
+    """'name(p1 "a  b" [[c d]])' -> (name, [parameters]); whitespace inside quoted/bracket parameters is kept"""
+    if "(" not in sig or not sig.rstrip().endswith(")"):
+        return sig.strip(), None
+    name, inner = sig.split("(", 1)
+    inner = inner.rstrip()[:-1]
+    out, cur, i, n = [], "", 0, len(inner)
+    while i < n:
+        c = inner[i]
+        if c == '"':
+            j = i + 1
+            while j < n and inner[j] != '"':
+                j += 2 if inner[j] == "\\" else 1
+            cur += inner[i:j + 1]; i = j + 1; continue
+        m = re.match(r"\[(=*)\[", inner[i:])
+        if m:
+            close = "]" + m.group(1) + "]"
+            j = inner.find(close, i)
+            if j >= 0:
+                cur += inner[i:j + len(close)]; i = j + len(close); continue
+        if c in " \t\n":
+            if cur:
+                out.append(cur); cur = ""
+            i += 1; continue
+        cur += c; i += 1
+    if cur:
+        out.append(cur)
+    return name.strip(), out
+
+
 def abstract_entry(b):
     kind = classify(b)
-    e = {"kind": kind, "sig": norm_ws(b.arg)}
+    e = {"kind": kind, "sig": norm_ws(b.arg), "rawsig": b.arg}
     if kind == "class":
         own = b.own_text()
         bases = [l for l in own if l.startswith("Bases:")]
